@@ -4,4 +4,6 @@ go 1.23
 
 require github.com/TarsCloud/TarsGo v0.0.0
 
+require go.uber.org/automaxprocs v1.5.2 // indirect
+
 replace github.com/TarsCloud/TarsGo => /repo
